@@ -582,6 +582,21 @@ impl VLog {
 		Ok(vlog)
 	}
 
+	/// Re-reads the value-log directory after its files have been replaced under a
+	/// live instance (restore from a checkpoint). The writer, the read handles and
+	/// the file table all refer to the files of the discarded timeline - some of
+	/// them deleted, some replaced by shorter files with the same ids - so values
+	/// appended through the old writer would land in a file that is no longer in
+	/// the directory, at offsets that mean nothing in the restored file.
+	pub(crate) fn reload_after_restore(&self) -> Result<()> {
+		*self.writer.write() = None;
+		self.file_handles.write().clear();
+		self.files_map.write().clear();
+		self.next_file_id.store(1, Ordering::SeqCst);
+		self.active_writer_id.store(0, Ordering::SeqCst);
+		self.prefill_file_handles()
+	}
+
 	/// Appends a key+value pair to the log and returns a ValuePointer
 	pub(crate) fn append(&self, key: &[u8], value: &[u8]) -> Result<ValuePointer> {
 		// Ensure we have a writer
